@@ -361,21 +361,14 @@ func GenerateInterface(p Printer, msg *protogen.Message) {
 		}
 	}
 
-	// Check if any are flattened (requires type alias with intersection)
-	hasFlattenedOneof := false
-	for _, info := range discriminatedOneofs {
-		if info.Flatten {
-			hasFlattenedOneof = true
-			break
-		}
-	}
-
 	// Generate discriminated union types before the message
 	for _, info := range discriminatedOneofs {
 		GenerateOneofDiscriminatedUnionType(p, name, info)
 	}
 
-	if hasFlattenedOneof {
+	// The discriminator and the variant (nested under its field name, or flattened) sit at the
+	// level of the message itself, next to its other fields: a type alias with intersection.
+	if len(discriminatedOneofs) > 0 {
 		GenerateFlattenedOneofInterface(p, msg, name, discriminatedOneofs)
 	} else {
 		GenerateStandardInterface(p, msg, name, discriminatedOneofs)
@@ -541,6 +534,9 @@ func GenerateFieldDeclaration(p Printer, field *protogen.Field) {
 	//nolint:gocritic // if-else chain is clearer than switch for distinct boolean checks
 	if annotations.IsNullableField(field) {
 		p("  %s: %s | null;", jsonName, tsType)
+	} else if annotations.GetEmptyBehavior(field) == http.EmptyBehavior_EMPTY_BEHAVIOR_NULL {
+		// an empty message is serialized as null
+		p("  %s?: %s | null;", jsonName, tsType)
 	} else if IsOptionalField(field) {
 		p("  %s?: %s;", jsonName, tsType)
 	} else {
